@@ -300,9 +300,19 @@ pub fn families(tier: Tier, _variant: &str) -> Vec<Family> {
     let q = tier == Tier::Quick;
     let mut v = vec![];
     if q {
-        // 2^20 values with the low 12 mantissa bits zero
-        v.push(Family::new("f32/low-12-bits-zero", 1 << 20, |idx, ctx| {
-            check_f32(ctx, (idx as u32) << 12);
+        // 2^27 values with the low 5 mantissa bits zero, 128 per case
+        v.push(Family::new("f32/low-5-bits-zero", 1 << 20, |idx, ctx| {
+            let base = (idx as u32) << 12;
+            for k in 0..128u32 {
+                check_f32(ctx, base | (k << 5));
+            }
+            ctx.nontrivial();
+        }));
+        // the values around the only f32 (of all 2^32, thorough tier) whose shortest text, read as
+        // f64, lies exactly halfway between two f32
+        v.push(Family::new("f32/around-double-rounding-witnesses", 2 * 129, |idx, ctx| {
+            let base: u32 = if idx < 129 { 0x15ae_43fd } else { 0x95ae_43fd };
+            check_f32(ctx, base - 64 + (idx % 129) as u32);
             ctx.nontrivial();
         }));
         // within 64 ulp of every power of two and ten
